@@ -310,8 +310,14 @@ static char *cfg_str(const struct cfg *c, char *b, size_t len)
 /* visits of the current call, reported by the library through the progress callback */
 static int g_nvis, g_bound, g_cancelled;
 static int g_vis[64];
+/* an update armed to happen INSIDE the search: the page is stored again from the progress callback when the walk visits it,
+ * i.e. while the walk still holds its reference on the copy being replaced (an application feeding the decoder from the callback) */
+static vbi_decoder *g_cb_v; static int g_cb_slot = -1, g_cb_text, g_cb_done;
+static void put_page(vbi_decoder *v, int s, int t);
 static int progress_cb(vbi_page *pg)
 {
+        if (getenv("C17_DEBUG")) fprintf(stderr, "visit %x.%x (armed slot %d done %d)\n", pg->pgno, pg->subno, g_cb_slot, g_cb_done);
+        if (g_cb_slot >= 0 && !g_cb_done && KEY(pg->pgno, pg->subno) == slot_key(g_cb_slot)) { g_cb_done = 1; put_page(g_cb_v, g_cb_slot, g_cb_text); }
         if (g_nvis < 64) g_vis[g_nvis] = KEY(pg->pgno, pg->subno);
         g_nvis++;
         if (g_nvis > g_bound) { g_cancelled = 1; return 0; }
@@ -558,6 +564,10 @@ static int run_step(struct run *r, int letter)
         vbi_page *pg = NULL;
         int st = vbi_search_next(r->s, &pg, d);
         r->ncalls++; r->last = st;
+        if (g_cb_done == 1) {           /* the cache was updated from the progress callback during this call: what it returns is already "after an update" */
+                g_cb_done = 2; r->var[g_cb_slot] = g_cb_text; r->dead = 1; r->nupd++; model_rebuild(r);
+                if (r->nh + 3 < (int) sizeof r->hist) { r->hist[r->nh++] = 'C'; r->hist[r->nh++] = '0' + g_cb_slot; r->hist[r->nh++] = g_cb_text == T_ONCE ? '+' : '-'; }
+        }
         mc_count("evaluations", 1);
         mc_count("page_visits", g_nvis);
         for (int i = 0; i < g_nvis && i < 64; i++)
@@ -618,6 +628,7 @@ static int run_step(struct run *r, int letter)
                         mc_outcome("%s NOT_FOUND after %s", dname(d), r->nret ? "all matching pages" : (r->np ? "visiting pages without a match" : "nothing"));
                 } else mc_outcome("%s NOT_FOUND after a cache update", dname(d));
                 r->dir = 0; r->cur = -1;
+                r->dead = 0;            /* the result set is undefined for the pass the update fell into; the next pass is exact again */
                 return st;
         case VBI_SEARCH_CACHE_EMPTY:
                 if (r->v->cn->n_cached_pages != 0) { snprintf(key, sizeof key, "%s: CACHE_EMPTY although pages are cached", dname(d)); report(r, key, "status"); return st; }
@@ -781,6 +792,38 @@ static void pattern_case(uint64_t idx, void *arg)
 }
 
 /* one cache update between two calls */
+/* update from inside the progress callback, then the pass to its end, then one complete pass judged exactly */
+static void drive_cb_update(const struct cfg *c, int d, int u)
+{
+        struct run r; int st = VBI_SEARCH_SUCCESS, n = 0, s = u / 2, t = (u & 1) ? T_ONCE : T_NONE;
+        if (c->var[s] == T_ABSENT) return;              /* only a cached page is visited */
+        run_begin(&r, c);
+        g_cb_v = r.v; g_cb_slot = s; g_cb_text = t; g_cb_done = 0;
+        int limit = 2 * NSLOT * 3 + 4;
+        do {
+                st = run_step(&r, d > 0 ? L_F : L_R); n++;
+        } while (st == VBI_SEARCH_SUCCESS && !r.stop && n < limit);
+        g_cb_slot = -1;
+        if (!r.stop && st == VBI_SEARCH_SUCCESS) report(&r, d > 0 ? "forward: pass does not end after a cache update" : "backward: pass does not end after a cache update", "call limit (update from the progress callback)");
+        if (!r.stop && g_cb_done) {
+                n = 0;
+                do { st = run_step(&r, d > 0 ? L_F : L_R); n++; } while (st == VBI_SEARCH_SUCCESS && !r.stop && n < limit);
+                mc_count("passes_after_callback_update", 1);
+        }
+        finish_scen(&r, c, 4, d, u);
+}
+static void cb_update_case(uint64_t idx, void *arg)
+{
+        const struct phase_arg *a = arg; struct cfg c;
+        if (!decode_pop(idx, &c, a->mask)) return;
+        for (int p = 0; p < 8; p++) for (int s = 0; s < a->nsub; s++) for (int d = 1; d >= -1; d -= 2)
+                for (int u = 2; u < 2 * NSLOT; u++) {
+                        if (!(a->pg_mask & (1u << p)) || !(a->mask & (1u << (u / 2)))) continue;
+                        c.spg = start_pgno[p]; c.ssub = start_subno[s];
+                        drive_cb_update(&c, d, u);
+                }
+}
+
 static void update_case(uint64_t idx, void *arg)
 {
         const struct phase_arg *a = arg; struct cfg c;
@@ -877,7 +920,7 @@ int main(int argc, char **argv)
         mc_meta("assume", "100.0 is stored before 100.1/100.2 (storing P.0 replaces another cached subpage of P); 100.1/100.2 in both orders");
         mc_meta("bound", "slots {100.0,100.1,100.2,150.0,1AB.0,899.0,8FE.0} x {absent,'ZIP','ZAP'}: all populations of <= 2 pages and all of %s, x 8 start pages x {0,ANY,2} x 2 directions, "
                 "straight pass + restart; the same on slots {150.0,1AB.1,1AB.A,1AB.C,2BD.F,899.0,8FE.B} (hexadecimal subpage numbers); a direction switch after every call on populations of <= 2 pages and on %s; %d text variants one at a time x 7 slots x 3 backgrounds; "
-                "%d patterns (literal/regex/casefold/28 escaped characters) x %d text rotations; one cache update after 0..2 calls on %s; "
+                "%d patterns (literal/regex/casefold/28 escaped characters) x %d text rotations; one cache update after 0..2 calls on %s, and one from inside the progress callback while the page is being visited, each followed by complete passes; "
                 "BFS: %d slots x 4 texts x %d starts, all sequences of %d operations {next(+1), next(-1), %d updates (at most one)}",
                 T ? "the 7 slots" : "the 6 slots without 1AB.0", T ? "all populations" : "{100.0,100.1,150.0,8FE.0}", NTEXT_ZAP - 1, npats, NPT,
                 T ? "{100.1,100.2,150.0,899.0,8FE.0}" : "{100.1,150.0,899.0,8FE.0}", B.nslot, B.npg * B.nsub, bfs_ops, B.nupd);
@@ -914,6 +957,9 @@ int main(int argc, char **argv)
         mc_pool("patterns", (uint64_t) npats * NPT, pattern_case, &pt, 120);
         struct phase_arg up = { T ? (m6 & ~S(0)) : (S(1) | S(3) | S(5) | S(6)), 0, 7, 0, 0, T ? ALL_PG : S(0) | S(2) | S(4) | S(7), T ? 3 : 1 };
         mc_pool("one cache update", npop(up.mask), update_case, &up, 120);
+        /* two subpages of one page among the slots: the page statistics (subpage range) are at stake when one of them is replaced while referenced */
+        static struct phase_arg cbu; cbu = up; if (!T) cbu.mask = S(1) | S(2) | S(3) | S(6);
+        mc_pool("cache update from the progress callback", npop(cbu.mask), cb_update_case, &cbu, 120);
 
         mc_bfs_spec spec = { 2 + B.nupd, B.ncfg + bfs_ops, 0, 60, bfs_run, NULL, bfs_letter };   /* letters: 2 calls + the updates; in the configuration positions 0..3 select a value */
         mc_bfs_result res;
